@@ -211,6 +211,7 @@ package commands
 //@   at go commands.pruneTaskGetRetainedUnpushed:1 assert arg2__ == retainChan && arg3__ == errorChan
 //@   at go commands.pruneTaskGetRetainedWorktree:1 assert arg2__ == retainChan && arg3__ == errorChan
 //@   at go commands.pruneTaskGetRetainedStashed:1 assert arg1__ == retainChan && arg2__ == errorChan
+//@   at call (*sync.WaitGroup).Wait:1 assert collstarted(1) == old(collstarted(1)) + 1 && collstarted(2) == old(collstarted(2)) + 1 && collstarted(3) == old(collstarted(3)) + 1 && collstarted(4) == old(collstarted(4)) + 1
 //@   at go commands.pruneTaskCollectRetained:1 assert arg1__ == retainChan
 //@   at call commands.pruneDeleteFiles:1 assert !dryRun
 //@   loop 1 iter has(retainedObjects, file.Oid) ==> len(prunableObjects) == iter(len(prunableObjects))
@@ -234,6 +235,7 @@ package commands
 // days + offset).
 //@ func pruneTaskGetRetainedCurrentAndRecentRefs
 //@   props C05
+//@   monitor collstarted[1] := old(collstarted(1)) + 1
 //@   at call git.RecentBranches:1 assert arg0__ == time_adddate(time_now(), 0, 0, -(fetchconf.FetchRecentRefsDays + fetchconf.PruneOffsetDays))
 //@   at go commands.pruneTaskGetPreviousVersionsOfRef:1 assert arg2__ == time_adddate(summ.CommitDate, 0, 0, -(fetchconf.FetchRecentCommitsDays + fetchconf.PruneOffsetDays)) && arg1__ == commit
 
@@ -267,15 +269,18 @@ package commands
 //@   ensures old(err) != nil ==> chsent(errorChan) == old(chsent(errorChan)) + 1
 //@ func pruneTaskGetRetainedStashed
 //@   props C05
+//@   monitor collstarted[4] := old(collstarted(4)) + 1
 //@   requires @inv gitscanner != nil && waitg != nil
 //@   at send errorChan assert mapval__ != nil
 //@ func pruneTaskGetRetainedUnpushed
 //@   props C05
+//@   monitor collstarted[2] := old(collstarted(2)) + 1
 //@   requires @inv gitscanner != nil && waitg != nil
 //@   at send errorChan assert mapval__ != nil
 //@   at call (*lfs.GitScanner).ScanUnpushed:1 assert arg1__ == fetchconf.PruneRemoteName
 //@ func pruneTaskGetRetainedWorktree
 //@   props C05
+//@   monitor collstarted[3] := old(collstarted(3)) + 1
 //@   requires @inv gitscanner != nil && waitg != nil
 //@   loop 1 iter !worktree.Prunable ==> spawned_index(0) == iter(spawned_index(0)) + 1
 //@   loop 1 iter fetchconf.PruneForce ==> spawned_atref(0) == iter(spawned_atref(0))
